@@ -5,19 +5,39 @@
           fallback, the undo log and the unwinder that stops at the first failing undo; from_diff).
   Spec  : JV.Spec.Rfc6902 (executed by the driver as the oracle of the correspondence run).
 
-  Proved here: the failure half that does not depend on the undo log (every operation that fails
-  leaves the document as it found it unless it is the second half of `move`, whose first half is
-  logged), rejection of malformed operations, purity of `test`. The full statements
-      apply_atomic        : (applyPatch o d p).1 ≠ none → (applyPatch o d p).2 ≃ d
+  Proved here
+  * ATOMICITY of the model (the per-operation inversion lemmas for the undo log are in
+    JV.Proofs.PatchUndoA–F; `undo_inverts_op` is the single-operation statement):
+      apply_atomic_sorted     : d.WF → p.WF → (applyPatch false d p).1 ≠ none → (applyPatch false d p).2 = d
+          `jsoncons::json`: EXACT, every patch (all six operations, `-`, array shifting, the
+          insert-else-replace fallback, root targets, `move` failing in its second half).  `WF` = the
+          representation invariant of the type (objects sorted by key ⇒ unique keys); for the patch only
+          its `value` members need it (`apply_atomic_sorted_values`).  The invariant is needed (witness).
+      apply_atomic_ordered    : UK d → UK p → (applyPatch true d p).1 ≠ none → JsonEq (applyPatch true d p).2 d
+          `jsoncons::ojson`: UP TO MEMBER ORDER (`JsonEq a b := norm a = norm b`, `norm` sorts the members
+          of every object; `norm_of_wf`: it is the identity on `WF` values), under unique keys (`UK`).
+          Exact equality is FALSE there (witness: `{"a":1,"b":2}`, `[remove /a, test "" 8]` leaves
+          `{"b":2,"a":1}` — the undo of remove/move re-appends the member last; DESIGN.md 9.7), and
+          unique keys are needed (witness).  `apply_atomic_ordered_values` also gives `UK` of the result.
+      apply_atomic            : both flavours in one statement, with `JsonEq`.
+      apply_atomic_no_removal : patchNoRemoval p → (applyPatch o d p).1 ≠ none → (applyPatch o d p).2 = d
+          EXACT for BOTH flavours with NO invariant at all when the patch has no `remove` / `move`.
+  * the failure half that does not depend on the undo log, rejection of malformed operations,
+    purity of `test`, root targets (D11, repaired).
+
+  Remaining gap of this property (checked on every run by the correspondence run against the Lean
+  Spec and by the property oracle on the real code; see DESIGN.md):
       apply_refines_spec  : (applyPatch false d p).1 = none → Rfc6902.applyPatch d p = some (applyPatch false d p).2
       diff_law            : applyPatch o a (fromDiff o [] a b) = (none, b)
-  are checked on every run by the correspondence run against the Lean Spec and by the property
-  oracle on the real code; their proofs (per-operation inversion lemmas for the undo log) are the
-  stated gap of this property — see DESIGN.md.
+  Atomicity is a theorem about the MODEL's undo log; allocation failure inside the unwinder (D66) is
+  outside the model.
 -/
 import JV.Proofs.Patch
+import JV.Proofs.PatchUndoD
+import JV.Proofs.PatchUndoF
 namespace JV.Props.C15
 open JV Model Model.Patch Model.Pointer
+open JV.Model.JsonPath (UK UKList UKMembers)
 
 /-- every operation that reports an error without having logged an undo entry has left the document untouched
     (for both object flavours; the only failing operation that logs an entry is `move` after its removal) -/
@@ -73,6 +93,157 @@ theorem root_add_logs_replace (ordered : Bool) (d v : JVal) :
     addLike ordered d [] v = (true, v, [.replace [] d]) := by
   simp [addLike, Pointer.get, Pointer.apply]
 
+/-! ### ATOMICITY: if any operation fails, the document is left as it was -/
+
+/-- the `value` members of the patch's operation objects satisfy the representation invariant -/
+def PatchValuesWF : JVal → Prop
+  | .arr ops => ∀ op ∈ ops, OpValWF op
+  | _ => True
+
+theorem wf_of_mem {x : JVal} : ∀ {xs : List JVal}, WFList xs → x ∈ xs → x.WF
+  | [], _, h => by simp at h
+  | y :: ys, hw, h => by
+    rcases List.mem_cons.1 h with e | e
+    · rw [e]; exact hw.1
+    · exact wf_of_mem hw.2 e
+
+theorem patchValuesWF_of_wf {p : JVal} (hp : p.WF) : PatchValuesWF p := by
+  cases p with
+  | arr ops =>
+    intro op hm
+    exact opValWF_of_wf (wf_of_mem (by simpa [JVal.WF] using hp) hm)
+  | _ => trivial
+
+/-- ATOMICITY for `jsoncons::json` (sorted objects), EXACT: whenever `apply_patch` reports an error,
+    the document is identical to the one it was given — for every patch (all six operations, `-`,
+    array shifting, the insert-else-replace fallback, root targets, `move` failing in its second
+    half), under the representation invariant of the type (`WF`: every object sorted by key, hence
+    keys unique) for the document and for the values carried by the patch. -/
+theorem apply_atomic_sorted_values (d p : JVal) (hd : d.WF) (hp : PatchValuesWF p) :
+    (applyPatch false d p).1 ≠ none → (applyPatch false d p).2 = d := by
+  intro h
+  cases p with
+  | arr ops => exact applyLoop_atomic_sorted d ops d [] hp hd rfl h
+  | _ => rfl
+
+theorem apply_atomic_sorted (d p : JVal) (hd : d.WF) (hp : p.WF) :
+    (applyPatch false d p).1 ≠ none → (applyPatch false d p).2 = d :=
+  apply_atomic_sorted_values d p hd (patchValuesWF_of_wf hp)
+
+/-- no operation of the patch is `remove` or `move` (decidable) -/
+def patchNoRemoval : JVal → Bool
+  | .arr ops => ops.all noRemoval
+  | _ => true
+
+/-- ATOMICITY, EXACT, for BOTH object flavours and WITHOUT any invariant on the document or the
+    patch (duplicate keys, unsorted objects allowed), for patches without `remove` / `move`:
+    the undo of add / replace / copy restores the document exactly. -/
+theorem apply_atomic_no_removal (ordered : Bool) (d p : JVal) (hp : patchNoRemoval p = true) :
+    (applyPatch ordered d p).1 ≠ none → (applyPatch ordered d p).2 = d := by
+  intro h
+  cases p with
+  | arr ops =>
+    have hops : ∀ op ∈ ops, noRemoval op = true := by simpa [patchNoRemoval, List.all_eq_true] using hp
+    exact applyLoop_atomic_noRemoval ordered d ops d [] hops rfl h
+  | _ => rfl
+
+/-! #### insertion-ordered objects (`jsoncons::ojson`): atomic up to member order -/
+
+/-- equal as JSON values: `norm` sorts the members of every object (arrays keep their order) -/
+def JsonEq (a b : JVal) : Prop := norm a = norm b
+
+theorem insertSorted_of_allGt {k : Bytes} {v : JVal} : ∀ {ms : List (Bytes × JVal)}, Assoc.AllGt k ms →
+    Assoc.insertSorted k v ms = (k, v) :: ms
+  | [], _ => rfl
+  | (k', v') :: ms, h => by
+    have : keyLt k' k = false := Assoc.keyLt_asymm h.1
+    simp [Assoc.insertSorted, this]
+
+mutual
+  /-- `norm` is the identity on values that satisfy the sorted representation invariant, so on
+      `jsoncons::json` values `JsonEq` is plain equality -/
+  theorem norm_of_wf : ∀ t : JVal, t.WF → norm t = t
+    | .arr xs, h => by simp only [norm]; rw [normList_of_wf xs (by simpa [JVal.WF] using h)]
+    | .obj ms, h => by
+      have hw : Assoc.Sorted ms ∧ WFMembers ms := by simpa [JVal.WF] using h
+      simp only [norm]
+      rw [normMembers_of_wf ms hw.2, sortMembers_of_sorted ms hw.1]
+    | .null, _ => rfl
+    | .bool _, _ => rfl
+    | .int _, _ => rfl
+    | .str _, _ => rfl
+  theorem normList_of_wf : ∀ xs : List JVal, WFList xs → normList xs = xs
+    | [], _ => rfl
+    | x :: xs, h => by simp only [normList]; rw [norm_of_wf x h.1, normList_of_wf xs h.2]
+  theorem normMembers_of_wf : ∀ ms : List (Bytes × JVal), WFMembers ms → normMembers ms = ms
+    | [], _ => rfl
+    | (k, x) :: ms, h => by simp only [normMembers]; rw [norm_of_wf x h.1, normMembers_of_wf ms h.2]
+  theorem sortMembers_of_sorted : ∀ ms : List (Bytes × JVal), Assoc.Sorted ms → sortMembers ms = ms
+    | [], _ => rfl
+    | (k, v) :: ms, h => by
+      simp only [sortMembers]
+      rw [sortMembers_of_sorted ms h.tail, insertSorted_of_allGt h.allGt]
+end
+
+theorem jsonEq_iff_eq_of_wf (a b : JVal) (ha : a.WF) (hb : b.WF) : JsonEq a b ↔ a = b := by
+  unfold JsonEq; rw [norm_of_wf a ha, norm_of_wf b hb]
+
+/-- the `value` members of the patch's operation objects have unique keys -/
+def PatchValuesUK : JVal → Prop
+  | .arr ops => ∀ op ∈ ops, OpValUK op
+  | _ => True
+
+theorem uk_of_mem_list {x : JVal} : ∀ {xs : List JVal}, UKList xs → x ∈ xs → UK x
+  | [], _, h => by simp at h
+  | y :: ys, hw, h => by
+    rcases List.mem_cons.1 h with e | e
+    · rw [e]; exact hw.1
+    · exact uk_of_mem_list hw.2 e
+
+theorem patchValuesUK_of_uk {p : JVal} (hp : UK p) : PatchValuesUK p := by
+  cases p with
+  | arr ops =>
+    intro op hm
+    exact opValUK_of_uk (uk_of_mem_list (by simpa [UK] using hp) hm)
+  | _ => trivial
+
+/-- ATOMICITY for `jsoncons::ojson` (insertion-ordered objects), UP TO MEMBER ORDER: whenever
+    `apply_patch` reports an error, the document is equal as a JSON value to the one it was given, and
+    still has unique keys — for every patch, under the unique-keys invariant of `basic_json` for the
+    document and for the values carried by the patch.  Exact equality does NOT hold (witness below):
+    the undo of `remove` / `move` re-appends the removed member last. -/
+theorem apply_atomic_ordered_values (d p : JVal) (hd : UK d) (hp : PatchValuesUK p) :
+    (applyPatch true d p).1 ≠ none → JsonEq (applyPatch true d p).2 d ∧ UK (applyPatch true d p).2 := by
+  intro h
+  cases p with
+  | arr ops =>
+    have := applyLoop_atomic_ordered d ops d [] hp hd logUK_nil (REq.refl d) h
+    exact ⟨this.2, this.1 hd⟩
+  | _ => exact ⟨rfl, hd⟩
+
+theorem apply_atomic_ordered (d p : JVal) (hd : UK d) (hp : UK p) :
+    (applyPatch true d p).1 ≠ none → JsonEq (applyPatch true d p).2 d :=
+  fun h => (apply_atomic_ordered_values d p hd (patchValuesUK_of_uk hp) h).1
+
+/-- ATOMICITY (the statement of C15 for the model, both flavours): under the representation invariant
+    of the object flavour — sorted unique keys for `json`, unique keys for `ojson` — a failing patch
+    leaves the document equal as a JSON value (`JsonEq`; for `json` this is `=`, see `apply_atomic_sorted`). -/
+theorem apply_atomic (ordered : Bool) (d p : JVal)
+    (hd : if ordered then UK d else d.WF) (hp : if ordered then UK p else p.WF) :
+    (applyPatch ordered d p).1 ≠ none → JsonEq (applyPatch ordered d p).2 d := by
+  intro h
+  cases ordered with
+  | true => exact apply_atomic_ordered d p (by simpa using hd) (by simpa using hp) h
+  | false =>
+    have := apply_atomic_sorted d p (by simpa using hd) (by simpa using hp) h
+    unfold JsonEq; rw [this]
+
+/-- after `k` successful operations the undo stack restores the original document (sorted objects) -/
+theorem undo_inverts_op (t operation : JVal) (ht : t.WF) :
+    ∀ s, unwind false (applyOp false t operation).2.1 ((applyOp false t operation).2.2 ++ s) = unwind false t s := by
+  obtain ⟨t2, he, hu⟩ := applyOp_undoes Eq (fun _ => rfl) false t operation (Or.inr (remInv_sorted t ht))
+  subst he; exact hu
+
 /-! ### non-vacuity / regression witnesses (evaluated by the kernel) -/
 
 def docA : JVal := .obj [([97], .int 1)]
@@ -84,5 +255,68 @@ def opFrob : JVal := .obj [(sOp, .str [102, 114, 111, 98]), (sPath, .str [47, 97
 example : applyPatch false docA (.arr [opRemoveA, opAddRoot7, opTestRoot8]) = (some .testFailed, docA) := by decide
 example : applyPatch false docA (.arr [opFrob]) = (some .invalidPatch, docA) := by decide
 example : applyPatch false docA (.arr [opRemoveA, opAddRoot7]) = (none, .int 7) := by decide
+
+/-! non-vacuity of `apply_atomic_sorted`: three operations succeed and modify the document
+    (append through `-`, `move` out of an object into an array, `remove` with shifting), the fourth fails -/
+def doc2 : JVal := .obj [([97], .arr [.int 1, .int 2]), ([98], .obj [([99], .int 3)])]
+def opAddDash : JVal := .obj [(sOp, .str sAdd), (sPath, .str [47, 97, 47, 45]), (sValue, .int 9)]
+def opMoveCA0 : JVal := .obj [(sFrom, .str [47, 98, 47, 99]), (sOp, .str sMove), (sPath, .str [47, 97, 47, 48])]
+def opRemoveA1 : JVal := .obj [(sOp, .str sRemove), (sPath, .str [47, 97, 47, 49])]
+def opReplaceZ : JVal := .obj [(sOp, .str sReplace), (sPath, .str [47, 122]), (sValue, .int 1)]
+def patch3 : JVal := .arr [opAddDash, opMoveCA0, opRemoveA1]
+def patch4 : JVal := .arr [opAddDash, opMoveCA0, opRemoveA1, opReplaceZ]
+
+example : applyPatch false doc2 patch3 = (none, .obj [([97], .arr [.int 3, .int 2, .int 9]), ([98], .obj [])]) := by decide
+example : applyPatch false doc2 patch4 = (some .replaceFailed, doc2) := by decide
+example : doc2.WF ∧ patch4.WF := by
+  simp [doc2, patch4, opAddDash, opMoveCA0, opRemoveA1, opReplaceZ, JVal.WF, WFList, WFMembers, Assoc.Sorted, keyLt,
+    sOp, sPath, sValue, sFrom]
+example : (applyPatch false doc2 patch4).2 = doc2 :=
+  apply_atomic_sorted doc2 patch4
+    (by simp [doc2, JVal.WF, WFList, WFMembers, Assoc.Sorted, keyLt])
+    (by simp [patch4, opAddDash, opMoveCA0, opRemoveA1, opReplaceZ, JVal.WF, WFList, WFMembers, Assoc.Sorted, keyLt,
+          sOp, sPath, sValue, sFrom])
+    (by decide)
+
+/-- the invariant is needed: on an unsorted "sorted-flavour" object the undo of `remove` re-inserts the
+    member at its sorted position, not where it was -/
+example : applyPatch false (.obj [([98], .int 2), ([97], .int 1)])
+    (.arr [.obj [(sOp, .str sRemove), (sPath, .str [47, 98])], opTestRoot8])
+    = (some .testFailed, .obj [([97], .int 1), ([98], .int 2)]) := by decide
+
+/-- insertion-ordered objects (`ojson`): the undo of `remove` re-appends the member LAST, so the document
+    comes back equal only up to member order (DESIGN.md 9.7 "observed, not flagged") -/
+example : applyPatch true (.obj [([97], .int 1), ([98], .int 2)]) (.arr [opRemoveA, opTestRoot8])
+    = (some .testFailed, .obj [([98], .int 2), ([97], .int 1)]) := by decide
+
+/-- non-vacuity of `apply_atomic_no_removal` on an ordered object with a duplicate key -/
+def opCopyAB : JVal := .obj [(sOp, .str sCopy), (sFrom, .str [47, 97]), (sPath, .str [47, 98])]
+def opAddA5 : JVal := .obj [(sOp, .str sAdd), (sPath, .str [47, 97]), (sValue, .int 5)]
+example : patchNoRemoval (.arr [opCopyAB, opAddA5, opAddRoot7, opTestRoot8]) = true := by decide
+example : applyPatch true (.obj [([97], .int 1), ([97], .int 2)]) (.arr [opCopyAB, opAddA5, opAddRoot7]) = (none, .int 7) := by decide
+example : applyPatch true (.obj [([97], .int 1), ([97], .int 2)]) (.arr [opCopyAB, opAddA5, opAddRoot7, opTestRoot8])
+    = (some .testFailed, .obj [([97], .int 1), ([97], .int 2)]) := by decide
+
+/-! non-vacuity of `apply_atomic_ordered`: three operations succeed (remove of an object member, append
+    through `-`, `move` of a member into the array), the fourth fails; the document comes back with its
+    members in a different order -/
+def doc3 : JVal := .obj [([97], .int 1), ([98], .arr [.int 1]), ([99], .int 2)]
+def opAddBDash : JVal := .obj [(sOp, .str sAdd), (sPath, .str [47, 98, 47, 45]), (sValue, .int 5)]
+def opMoveCB0 : JVal := .obj [(sOp, .str sMove), (sFrom, .str [47, 99]), (sPath, .str [47, 98, 47, 48])]
+def patchO3 : JVal := .arr [opRemoveA, opAddBDash, opMoveCB0]
+def patchO4 : JVal := .arr [opRemoveA, opAddBDash, opMoveCB0, opTestRoot8]
+example : applyPatch true doc3 patchO3 = (none, .obj [([98], .arr [.int 2, .int 1, .int 5])]) := by decide
+example : applyPatch true doc3 patchO4
+    = (some .testFailed, .obj [([98], .arr [.int 1]), ([99], .int 2), ([97], .int 1)]) := by decide
+example : JsonEq (applyPatch true doc3 patchO4).2 doc3 :=
+  apply_atomic_ordered doc3 patchO4
+    (by simp [doc3, UK, UKList, UKMembers, Assoc.keys])
+    (by simp [patchO4, opRemoveA, opAddBDash, opMoveCB0, opTestRoot8, UK, UKList, UKMembers, Assoc.keys,
+          sOp, sPath, sValue, sFrom, sRemove, sAdd, sMove, sTest])
+    (by decide)
+/-- the unique-keys invariant is needed: with a duplicate key the undo of `remove` overwrites the
+    shadowed member instead of re-creating the removed one -/
+example : applyPatch true (.obj [([97], .int 1), ([97], .int 2)]) (.arr [opRemoveA, opTestRoot8])
+    = (some .testFailed, .obj [([97], .int 1)]) := by decide
 
 end JV.Props.C15
